@@ -332,7 +332,9 @@ func (f *Frame) execLoopInv(sh *loopShape, spec *LoopSpec, st *State) []Outcome 
 	// 1. entry
 	for i, inv := range spec.Invariants {
 		goal := envFor(st).evalBool(inv.E)
+		f.curGroup = clauseGroup(inv.Props)
 		f.oblige(st, "loopinv", fmt.Sprintf("%s#loop%d.inv:%d.entry", f.key, sh.ord, i+1), sh.pos, goal, inv.Text)
+		f.curGroup = ""
 	}
 	// 2. modset by dry run (fixpoint)
 	mod := f.loopModset(sh, st)
@@ -347,7 +349,7 @@ func (f *Frame) execLoopInv(sh *loopShape, spec *LoopSpec, st *State) []Outcome 
 		h.assume(Le(IntLit(0), it))
 	}
 	for _, inv := range spec.Invariants {
-		h.assume(envFor(h).evalBool(inv.E))
+		h.assume(inGroup(envFor(h).evalBool(inv.E), clauseGroup(inv.Props)))
 	}
 	var outs []Outcome
 	head := h.clone()
@@ -387,7 +389,9 @@ func (f *Frame) execLoopInv(sh *loopShape, spec *LoopSpec, st *State) []Outcome 
 					}
 					for i, inv := range spec.Invariants {
 						goal := envFor(ps).evalBool(inv.E)
+						f.curGroup = clauseGroup(inv.Props)
 						f.oblige(ps, "loopinv", fmt.Sprintf("%s#loop%d.inv:%d.preserve", f.key, sh.ord, i+1), sh.pos, goal, inv.Text)
+						f.curGroup = ""
 						if spec.Summarize && len(spec.Asserts) > 0 && nBody >= nHead && !goal.IsTrue() {
 							// the loop asserts summarise the body: preservation is proved from the
 							// loop-head facts, the asserts and the post statement only (dropping the
